@@ -117,8 +117,7 @@ def check(run):
     for k in (0, len(cases) // 2, len(cases) - 1):
         run.sample({"case": cases[k][:300], "model": mo[k][:300], "impl": io[k][:300]})
     report_diffs(run, diffs, "coq/Sequence.v", "the into_stream implementations (zvt/src/sequences.rs, zvt/src/feig/sequences.rs)", "seq")
-    if any(not v.get("no_failing_input_found") for v in run.violations):
-        run.violations = [v for v in run.violations if not v.get("no_failing_input_found")]
+    vlib.prefer_concrete(run)
     return vlib.finish(run, trusted_base=TB, assumptions=["async-stream's try_stream! semantics (effects before each yield; `?` yields one Err and ends)",
                                                            "an in-memory peer stands for the TCP socket", "the firmware upload's content (manifest, file ids, block contents) is C11's; here its acknowledgement discipline"])
 
